@@ -82,7 +82,9 @@ type ServerObs struct {
 type Result struct {
 	ID         int        `json:"id"`
 	BundleHost string     `json:"bundle_host"`
-	ExpSNI     []string   `json:"exp_sni"` // the names the client is expected to send as SNI on the row's server
+	Contacts   []string   `json:"contact_points"` // the contact points the metadata service hands out (node ids)
+	HostID     string     `json:"host_id"`        // host_id of the system.peers row
+	Attempts   int        `json:"attempts"`       // connections the row makes to the server carrying the row's chain
 	ResolveOK  bool       `json:"resolve_ok"`
 	ResolveErr string     `json:"resolve_err,omitempty"`
 	Endpoints  []string   `json:"endpoints,omitempty"`
@@ -505,7 +507,13 @@ func runRow(p *pki, row Row) (res Result) {
 			sniNames = []string{host}
 		}
 	}
-	res.ExpSNI = sniNames
+	res.Contacts, res.HostID = contacts, peerID.String()
+	switch row.Target {
+	case "contact":
+		res.Attempts = len(contacts)
+	default:
+		res.Attempts = 1
+	}
 
 	metaChain, nodeChain := goodChain, goodChain
 	if row.Target == "metadata" {
